@@ -261,7 +261,11 @@ pub fn eval(path: &PathSpec, st: &StyleSpec, xf: &Xf) -> Result<Stat, Violation>
     // the polyline and of the curve differ by no more than the flattening deviation)
     let curved = path.ops.iter().any(|o| matches!(o, POp::Q(..) | POp::C(..) | POp::A(..)));
     let mag = (xf[0] as f64 * xf[3] as f64 - xf[1] as f64 * xf[2] as f64).abs().sqrt();
-    eval_with(path, st, xf, curved && st.join == 1 && mag >= 1000.0)
+    // round-joined curves whose control points are collinear (out-and-back curves) are judged
+    // against the true curve as well: with round joins the turning point is a disc, whatever the
+    // flattening does there
+    let collinear = curved && has_collinear_curve(&path.build().ops);
+    eval_with(path, st, xf, curved && st.join == 1 && (mag >= 1000.0 || collinear))
 }
 
 /// `true_curve`: take the region of the true curve (finely sampled) instead of the region of
@@ -290,7 +294,7 @@ pub fn eval_with(path: &PathSpec, st: &StyleSpec, xf: &Xf, true_curve: bool) -> 
     // cusp, where the join depends on rounding noise of the flattening) keep the library's own
     // polyline as the reference
     let built = path.build();
-    let lines = if !true_curve || has_collinear_curve(&built.ops) {
+    let lines = if !true_curve || (has_collinear_curve(&built.ops) && st.join != 1) {
         let tol = 0.1 / t.determinant().abs().sqrt();
         polylines_of(&guard(|| built.flatten(tol)).map_err(|p| Violation::new("flatten/panic", case.clone(), p))?.ops)
     } else {
@@ -611,6 +615,54 @@ impl Check for C04 {
             }
         });
         // hundreds of overlapping pieces over one spot (winding numbers beyond 8-bit counters)
+        // curves whose control points lie on the line through their end points, beyond them: the curve
+        // runs out past an end point and comes back (round joins; butt, round and square caps)
+        {
+            let dirs = [(1.0f32, 0.0f32), (0.0, 1.0), (0.8, 0.6), (-0.6, 0.8)];
+            run.bound("out-and-back curves", format!("quads and cubics with collinear control points beyond an end point, {} directions x 3 caps x widths 3 / 6, round joins, judged against the true curve", dirs.len()));
+            run.par(dirs.len() * 3, |s, l| {
+                let d = dirs[s / 3];
+                let cap = (s % 3) as u8;
+                let at = |t: f32| (18.0 + d.0 * t, 18.0 + d.1 * t);
+                for wd in [3.0f32, 6.0] {
+                    let st = StyleSpec { width: wd, cap, join: 1, miter: 4.0, dash: vec![], offset: 0. };
+                    let (a, b, c, e) = (at(-12.0), at(22.0), at(4.0), at(-20.0));
+                    let paths = vec![
+                        PathSpec::new(vec![POp::M(a.0, a.1), POp::Q(b.0, b.1, c.0, c.1)]),
+                        PathSpec::new(vec![POp::M(a.0, a.1), POp::Q(e.0, e.1, c.0, c.1)]),
+                        PathSpec::new(vec![POp::M(a.0, a.1), POp::C(b.0, b.1, e.0, e.1, c.0, c.1)]),
+                        PathSpec::new(vec![POp::M(a.0, a.1), POp::C(b.0, b.1, b.0, b.1, c.0, c.1), POp::L(c.0 + d.1 * 8.0, c.1 - d.0 * 8.0)]),
+                    ];
+                    for p in &paths {
+                        account(run, 12_000 + s, l, p, &st, &IDENT, false);
+                    }
+                }
+            });
+        }
+        // needle-sharp hairpins with a miter limit that still admits the miter: the band continues
+        // beyond the vertex (the surface looks at the stretch just behind it)
+        {
+            let gaps = [0.2f32, 0.6, 2.0];
+            run.bound("hairpins under huge miter limits", format!("two 300-unit arms {:?} units apart at their far ends, pen 10 / 4, miter limits 4000 / 1000 / 100 (admitting the miter or not), both orders, identity and scale 0.1", gaps));
+            run.par(gaps.len() * 3, |s, l| {
+                let g = gaps[s / 3];
+                let limit = [4000.0f32, 1000.0, 100.0][s % 3];
+                for wd in [10.0f32, 4.0] {
+                    for rev in [false, true] {
+                        for k in [1.0f32, 10.0] {
+                            let mut pts = vec![(-300.0 * k, 0.5 * g * k), (0.0, 0.0), (-300.0 * k, -0.5 * g * k)];
+                            if rev {
+                                pts.reverse();
+                            }
+                            let path = PathSpec::new(pts.iter().enumerate().map(|(i, p)| if i == 0 { POp::M(p.0, p.1) } else { POp::L(p.0, p.1) }).collect());
+                            let st = StyleSpec { width: wd * k, cap: 0, join: 0, miter: limit, dash: vec![], offset: 0. };
+                            // the vertex maps to (6, 18): the surface shows 30 px behind it
+                            account(run, 13_000 + s, l, &path, &st, &[1.0 / k, 0., 0., 1.0 / k, 6., 18.], false);
+                        }
+                    }
+                }
+            });
+        }
         // very wide pens at nearly straight vertices: the join wedge on the outer side is a few
         // pixels wide only far from the vertex (half the width away); the surface looks at that spot
         {
